@@ -29,8 +29,8 @@ pub fn def() -> CheckDef {
     CheckDef {
         id: "C17",
         level: "fault_enumeration",
-        runs_quick: 60_000,
-        runs_thorough: 1_200_000,
+        runs_quick: 100_000,
+        runs_thorough: 2_000_000,
         rule: "(a) Debug/AlgorithmName text of every public type compared between two instances with different key, IV and history and along one instance's history; (b) drop injected after every prefix of a sampled history (block modes x12, byte-stream aliases x8, cores x8, buffered CFB x2 over the harness cipher, block sizes >= 8), followed by a scan of the object's storage for 8-byte windows of the IV, the exported state, its image under E and the next keystream blocks; positive control: the same scenarios on a build without the zeroize features must leave residue for every type. evaluations = scenarios; drop points counted in reach_probes.drop_points. distinct = distinct (part, type, block size, cipher, history shape); non-trivial = history of >= 1 data operation",
         required_probes: &["drop_points", "live_state_seen", "debug_compared", "drop_mid_block", "drop_after_seek", "debug_at_keystream_end"],
         r#gen,
